@@ -239,8 +239,11 @@ var brokenStrategies = map[string]bool{}
 
 // learnSignature is the signature under which a new end-to-end disagreement would be recorded as a finding.
 func learnSignature(a map[string]string) map[string]string {
-	if a["pf"] == "ill-formed-haystack" {
-		return map[string]string{"pf": "ill-formed-haystack"}
+	// the three UTF-8 classes have ONE root cause each, in the automaton all strategies share (byte-level classes with an
+	// invalid-byte branch; byte-wise stepping of unanchored searches), so they are keyed by the feature alone
+	switch a["pf"] {
+	case "ill-formed-haystack", "nonascii-class-on-multibyte", "multibyte-haystack":
+		return map[string]string{"pf": a["pf"]}
 	}
 	if brokenStrategies[a["strategy"]] {
 		return map[string]string{"strategy": a["strategy"]}
